@@ -128,10 +128,16 @@ def rand_weights(rng, n, cls):
 
 def rand_shape(rng, pdim, rational=None, maxdeg=None, maxextra=None, dim=None, kvcls=None, normalize=True,
                lohi=None, span=None, wcls=None, pcls=None, distinct_sizes=True, fine=False, clamped_only=False,
-               mindeg=1):
-    """A JSON-able shape dict. Control points are in library order (v fastest, then u, then w)."""
+               mindeg=1, large=False):
+    """A JSON-able shape dict. Control points are in library order (v fastest, then u, then w).
+    large: degrees and sizes beyond the usual small ones (degree up to 10, up to 40 control points per curve; surfaces whose sizes
+    and degrees differ strongly), overriding maxdeg / maxextra / mindeg."""
     if rational is None:
         rational = rng.random() < 0.5
+    if large:
+        maxdeg = {1: 10, 2: 6, 3: 4}[pdim]
+        maxextra = {1: 30, 2: 10, 3: 4}[pdim]
+        mindeg = max(mindeg, 1)
     if maxdeg is None:
         maxdeg = {1: 7, 2: 4, 3: 3}[pdim]
     if maxextra is None:
@@ -141,6 +147,11 @@ def rand_shape(rng, pdim, rational=None, maxdeg=None, maxextra=None, dim=None, k
     for _ in range(100):
         degs = [rng.randint(mindeg, maxdeg) for _ in range(pdim)]
         sizes = [d + 1 + rng.randint(0, maxextra) for d in degs]
+        if large:
+            # at least one direction is really large, the others anything
+            k = rng.randrange(pdim)
+            degs[k] = rng.randint(max(mindeg, {1: 6, 2: 4, 3: 3}[pdim]), maxdeg)
+            sizes[k] = degs[k] + 1 + rng.randint(maxextra // 2, maxextra)
         if pdim == 1 or not distinct_sizes or len(set(sizes)) == pdim:
             break
     kvs = []
@@ -172,6 +183,8 @@ def rand_shape(rng, pdim, rational=None, maxdeg=None, maxextra=None, dim=None, k
         P[rng.randrange(ntot)] = list(P[rng.randrange(ntot)])
     sd = {'pdim': pdim, 'rational': bool(rational), 'degrees': degs, 'sizes': sizes, 'kvs': kvs,
           'ctrlpts': P, 'normalize_kv': bool(normalize), 'kvcls': classes, 'pcls': pc}
+    if large:
+        sd['large'] = True
     if rational:
         wc = wcls or rng.choice(['uniform', 'uniform', 'ones', 'const', 'twolevel', 'arc'])
         sd['weights'] = rand_weights(rng, ntot, wc)
